@@ -148,12 +148,21 @@ func failureEdge(n *nilAnalysis, s parseSite) (*ssa.BasicBlock, string) {
 // firstResponseCode: the HTTP status of the first gapiError reachable from b
 // (searching breadth-first, not crossing other response writes).
 func firstGapiErrorCode(b *ssa.BasicBlock) (int64, token.Pos, bool) {
+	// the failure successor must be entered only through the failure edge:
+	// otherwise "the first error response reachable" may belong to later,
+	// unrelated code after the branches have rejoined
+	// (several If-terminated predecessors are fine: `a || b` enters the body from both tests)
+	for _, p := range b.Preds {
+		if _, isIf := p.Instrs[len(p.Instrs)-1].(*ssa.If); !isIf {
+			return 0, token.NoPos, false
+		}
+	}
 	seen := map[*ssa.BasicBlock]bool{}
 	queue := []*ssa.BasicBlock{b}
 	for len(queue) > 0 {
 		x := queue[0]
 		queue = queue[1:]
-		if seen[x] {
+		if seen[x] || !b.Dominates(x) {
 			continue
 		}
 		seen[x] = true
